@@ -3,12 +3,16 @@
 Require Import Floats.SpecFloat.
 Require Import List ZArith Bool.
 From Flocq Require Import Core BinarySingleNaN.
-From Dasp Require Import Base.Res Base.Float Signal.Converter Signal.ConvNumF Sample.ConvSpec Sample.SampleFmt.
+From Dasp Require Import Base.Res Base.Float Signal.Converter Signal.ConverterOps Signal.ConvNumF Sample.ConvSpec Sample.SampleFmt.
 Import ListNotations.
 Open Scope Z_scope.
 
-Inductive zop := ZNext | ZSetPlay (x : Z) | ZSetHz (a b : Z) | ZSetSample (x : Z) | ZUntil (cap : Z).
 Inductive zctor := CHz (a b : Z) | CScale (m : Z) | CSample (m : Z) | CMul (ctl : list Z).
+Inductive zop := ZNext | ZSetPlay (x : Z) | ZSetHz (a b : Z) | ZSetSample (x : Z) | ZUntil (cap : Z)
+(* the accessors (Signal/ConverterOps.v), callable between any two outputs *)
+| ZSource                   (* source(): is_exhausted of the source and its counters *)
+| ZSrcPull                  (* source_mut().next() *)
+| ZRebuild (c : zctor).     (* into_source(), a newly primed interpolator of the same kind, a constructor again *)
 (* format code (0 f64, 1 f32, 2 i16, 3 u8: hand-written conversions of ConvNumF.v;
    100 + SampleFmt.sfmt_code: the generated conversions, all 14 formats), interpolator (0 floor,
    1 linear), channels, source frames (floats as bit patterns), constructor, operations, and the
@@ -28,6 +32,15 @@ Variable dec : Z -> smp Fm.
 
 Definition encf (f : frame Fm) : list Z := map enc f.
 
+(* the scale a Converter constructor hands to scale_playback_hz *)
+Definition ctor_scale (c : zctor) : option F64.t :=
+  match c with
+  | CHz a b => Some (F64.div (fb a) (fb b))
+  | CScale m => Some (fb m)
+  | CSample m => Some (F64.div F64.one (fb m))
+  | CMul _ => None
+  end.
+
 (* observations of the operations, then [tail] pulls from the source the converter leaves behind:
    `5 exhausted_before pulls iter frame..` each *)
 Fixpoint run_tail (k : nat) (s : source Fm) : list (list Z) :=
@@ -37,23 +50,39 @@ Fixpoint run_tail (k : nat) (s : source Fm) : list (list Z) :=
             (5 :: b2z (src_exhausted s) :: zn (pulls s') :: zn (iter_calls s') :: encf f) :: run_tail k' s'
   end.
 
-Fixpoint run_ops (c : conv Fm) (ops : list zop) (tail : nat) : list (list Z) :=
+(* [linear]: the interpolator kind of the case (a rebuild primes a new one of the same kind) *)
+Fixpoint run_ops (linear : bool) (c : conv Fm) (ops : list zop) (tail : nat) : list (list Z) :=
   match ops with
   | [] => run_tail tail (src c)
+  | ZSource :: t =>
+    [6; b2z (src_exhausted (src c)); zn (pulls (src c)); zn (iter_calls (src c))] :: run_ops linear c t tail
+  | ZSrcPull :: t =>
+    let (f, c') := source_pull c in
+    (7 :: zn (pulls (src c')) :: zn (iter_calls (src c')) :: encf f) :: run_ops linear c' t tail
+  | ZRebuild ct :: t =>
+    match ctor_scale ct with
+    | None => [[-4]]
+    | Some sc =>
+      match rebuild linear c sc with
+      | Ok c' => [0; zn (pulls (src c')); zn (iter_calls (src c'))] :: run_ops linear c' t tail
+      | Panic _ => [[8; 9]]
+      | UB => [[-2]]
+      end
+    end
   | ZNext :: t =>
     match next fuel_run c with
     | Diverges => [[9]]
     | Done (out, c') =>
       (1 :: b2z (is_exhausted c) :: zn (pulls (src c')) :: zn (iter_calls (src c')) :: F64.bits (value c') :: encf out)
-        :: run_ops c' t tail
+        :: run_ops linear c' t tail
     end
-  | ZSetPlay x :: t => [3] :: run_ops (set_playback_hz_scale c (fb x)) t tail
-  | ZSetHz a b :: t => [3] :: run_ops (set_hz_to_hz c (fb a) (fb b)) t tail
-  | ZSetSample x :: t => [3] :: run_ops (set_sample_hz_scale c (fb x)) t tail
+  | ZSetPlay x :: t => [3] :: run_ops linear (set_playback_hz_scale c (fb x)) t tail
+  | ZSetHz a b :: t => [3] :: run_ops linear (set_hz_to_hz c (fb a) (fb b)) t tail
+  | ZSetSample x :: t => [3] :: run_ops linear (set_sample_hz_scale c (fb x)) t tail
   | ZUntil cap :: t =>
     match until_exhausted fuel_run (Z.to_nat cap) c with
     | Diverges => [[9]]
-    | Done (n, c') => [4; zn n; zn (pulls (src c'))] :: run_ops c' t tail
+    | Done (n, c') => [4; zn n; zn (pulls (src c'))] :: run_ops linear c' t tail
     end
   end.
 
@@ -86,7 +115,7 @@ Definition run_case_fmt (itp nch : Z) (frames : list (list Z)) (c : zctor) (ops 
   let hd := [0; zn (pulls s); zn (iter_calls s)] in
   let fin (r : res (conv Fm)) :=
     match r with
-    | Ok cv => hd :: run_ops cv ops (Z.to_nat tl)
+    | Ok cv => hd :: run_ops (negb (itp =? 0)) cv ops (Z.to_nat tl)
     | Panic _ => [[8; 9]]   (* the assertion carries a custom message: harness class 9 *)
     | UB => [[-2]]
     end in
